@@ -38,12 +38,14 @@ TF = ["true", "false", "trueish", "is_true", "falsehood", "xtruey", "True_", "FA
 SYM = ["E", "I", "S", "N", "O", "Q", "pi", "zoo", "oo", "nan", "beta", "gamma", "zeta", "lambda", "Symbol", "im", "re", "sign", "Abs", "Mod", "Min", "Max", "Function", "var", "C", "ff", "rf", "LT", "Eq", "Ne", "Lt"]
 DFORM = ["dfoo_dt", "d_dt", "dx_dt2", "ddx_dt_dt", "dy_dt_x", "d2", "dt_dt"]
 GRAM = ["states", "parameters", "expressions", "component", "Conditional", "ContinuousConditional", "ScalarParam", "unit", "description", "And", "Or", "Not", "Gt", "Ge", "Le", "ln", "acos", "e", "E1", "e2", "x1e5"]
+import string
+LETTERS = list(string.ascii_lowercase) + list(string.ascii_uppercase) + ["_", "__", "_x", "x_", "n0", "N_"]
 FRESH = {"state": "fresh_s", "parameter": "fresh_p", "intermediate": "fresh_i"}
 
 
 def alphabet():
     seen, out = set(), []
-    for grp, lst in (("gen", GEN), ("derived", DERIVED), ("py", PY), ("c", CKW), ("cmath", CMATH), ("truefalse", TF), ("sympy", SYM), ("dform", DFORM), ("grammar", GRAM)):
+    for grp, lst in (("letters", LETTERS), ("gen", GEN), ("derived", DERIVED), ("py", PY), ("c", CKW), ("cmath", CMATH), ("truefalse", TF), ("sympy", SYM), ("dform", DFORM), ("grammar", GRAM)):
         for n in lst:
             if n not in seen:
                 seen.add(n)
@@ -81,7 +83,7 @@ def items(tier):
         for role in ("state", "parameter", "intermediate"):
             its.append({"key": f"{grp}|{ident}|{role}", "kind": "ident", "ident": ident, "role": role, "group": grp, "variant": "plain",
                         "sample": {"identifier": ident, "role": role, "text": models.spec_text(template(role, ident))}})
-            if grp in ("py", "c", "cmath", "truefalse", "sympy", "grammar", "gen"):
+            if grp in ("py", "c", "cmath", "truefalse", "sympy", "grammar", "gen") or ident in ("t", "e", "E", "I", "S", "N", "O", "Q", "C", "n"):
                 its.append({"key": f"{grp}|{ident}|{role}|cond", "kind": "ident", "ident": ident, "role": role, "group": grp, "variant": "cond",
                             "sample": {"identifier": ident, "role": role, "variant": "cond", "text": models.spec_text(template(role, ident, "cond"))}})
     return its
@@ -113,6 +115,15 @@ def evaluate(mod, ref, rename):
 
 GRID = [dict(zip(("t", "S", "y", "P", "q"), tup)) for tup in __import__("itertools").product((0.0, 0.5), (-1.0, 0.5, 2.0), (-0.5, 1.0), (0.5, 2.0), (1.5,))]
 _fresh = {}
+_shape_fresh = {}
+
+
+def shape_fresh(role, shp):
+    if (role, shp) not in _shape_fresh:
+        sp = template(role, FRESH[role])
+        ref = models.Ref(sp)
+        _shape_fresh[(role, shp)] = models.build(models.spec_text(sp), "numpy", scheme=list(models.SCHEMES), stiff_states=[ref.states[0]], shape=shp)
+    return _shape_fresh[(role, shp)]
 
 
 def fresh_values(role, backend, variant="plain"):
@@ -184,6 +195,38 @@ def run_item(item):
         if diff:
             fail("silently-different", diff)
         res["outcomes"].append(f"{backend}:{'differs' if diff else 'equal'}")
+        if backend == "numpy" and not diff and variant == "plain":
+            # the shape option changes the generated prologue of monitor_values: same comparison under shape=single / multiple
+            for shp in ("single", "multiple"):
+                try:
+                    ms = models.build(text, "numpy", scheme=list(models.SCHEMES), stiff_states=[ref.states[0]], shape=shp)
+                    mf = shape_fresh(role, shp)
+                    sp_f = template(role, FRESH[role], variant)
+                    rf = models.Ref(sp_f)
+                    cmf = canon_map(role, FRESH[role])
+                    for pt in GRID[::3]:
+                        outs = []
+                        for m_, r_, c_ in ((ms, ref, cm), (mf, rf, cmf)):
+                            sidx = {n: m_.index("state", n) for n in r_.states}
+                            pidx = {n: m_.index("parameter", n) for n in r_.params}
+                            midx = {n: m_.index("monitor", n) for n in r_.monitors}
+                            S = numpy.zeros((len(sidx), 3)) if shp == "multiple" else numpy.zeros(len(sidx))
+                            for n, i in sidx.items():
+                                S[i] = pt[c_.get(n, n)]
+                            P = numpy.zeros(len(pidx))
+                            for n, i in pidx.items():
+                                P[i] = pt[c_.get(n, n)]
+                            with numpy.errstate(all="ignore"):
+                                mon = numpy.asarray(m_.ns["monitor_values"](pt["t"], S, P), dtype=float)
+                            outs.append({c_.get(n, n): (float(mon[i][0]) if shp == "multiple" else float(mon[i])) for n, i in midx.items()})
+                        res["evaluations"] += 1
+                        a, b = outs
+                        bad_ = [k for k in b if not (a.get(k) == b[k] or (a.get(k) != a.get(k) and b[k] != b[k]) or abs(a.get(k, 1e300) - b[k]) <= 1e-12 * max(1.0, abs(b[k])))]
+                        if bad_:
+                            fail(f"silently-different-shape-{shp}", f"monitor_values[{bad_[0]}] = {a.get(bad_[0])!r} with shape={shp}, with the fresh name {b[bad_[0]]!r}")
+                            break
+                except Exception as ex:
+                    fail(f"run-time-exception-shape-{shp}", f"shape={shp}: {type(ex).__name__}: {' '.join(str(ex).split())[:140]}")
     if accepted:
         res["nontrivial"] = 1
     return res
